@@ -640,7 +640,9 @@ impl ProxyServer {
         // report as provision finished state
         // true only if the finished_time_tick is greater than or equal to the query_time_tick
         //          or the secure channel is latched already
-        let report_provision_finished = provision_state.finished_time_tick >= query_time_tick
+        //          a finished_time_tick of 0 means provision has not finished (or was reset)
+        let report_provision_finished = (provision_state.finished_time_tick > 0
+            && provision_state.finished_time_tick >= query_time_tick)
             || provision_state.is_secure_channel_latched();
 
         let find_notify_header = request.headers().get(constants::NOTIFY_HEADER).is_some();
